@@ -25,13 +25,17 @@ type world struct {
 
 // obj is a harness-owned BatchWriteObject: BatchWriteScheduled is a test-and-set like the historical callers.
 type obj struct {
-	w         *world
-	id        int
-	version   uint64 // set by the producer before Enqueue; BatchWrite persists the value current at write time
-	scheduled bool
-	writes    int
-	dones     int
-	lastWrite uint64
+	w       *world
+	id      int
+	version uint64 // set by the producer before Enqueue; BatchWrite persists the value current at write time
+	deleted bool   // set by the producer together with the version: BatchWrite deletes the key instead of setting it
+	// what the last BatchWrite did, and what was committed when BatchWriteDone was last called
+	lastWriteDeleted bool
+	committed        uint64
+	scheduled        bool
+	writes           int
+	dones            int
+	lastWrite        uint64
 	// enqueues that actually returned, with the version they carried
 	enq []*enq
 }
@@ -46,12 +50,19 @@ func key(id int) []byte { return []byte{byte('k'), byte(id)} }
 func (o *obj) BatchWrite(m kvstore.BatchedMutations) {
 	o.writes++
 	o.lastWrite = o.version
-	var b [8]byte
-	binary.LittleEndian.PutUint64(b[:], o.version)
-	if err := m.Set(key(o.id), b[:]); err != nil {
-		o.w.s.Fail("store", "batch-set-error", "batch Set failed: %v", err)
+	o.lastWriteDeleted = o.deleted
+	if o.deleted {
+		if err := m.Delete(key(o.id)); err != nil {
+			o.w.s.Fail("store", "batch-delete-error", "batch Delete failed: %v", err)
+		}
+	} else {
+		var b [8]byte
+		binary.LittleEndian.PutUint64(b[:], o.version)
+		if err := m.Set(key(o.id), b[:]); err != nil {
+			o.w.s.Fail("store", "batch-set-error", "batch Set failed: %v", err)
+		}
 	}
-	o.w.s.Logf("BatchWrite obj%d v%d", o.id, o.version)
+	o.w.s.Logf("BatchWrite obj%d v%d deleted=%v", o.id, o.version, o.deleted)
 }
 
 func (o *obj) BatchWriteDone() {
@@ -61,14 +72,16 @@ func (o *obj) BatchWriteDone() {
 	if o.dones > o.writes {
 		s.Fail("done-once", "done-without-write", "obj%d: BatchWriteDone called %d times for %d BatchWrite calls", o.id, o.dones, o.writes)
 	}
-	v, err := o.w.store.Get(key(o.id))
-	if err != nil || binary.LittleEndian.Uint64(v) != o.lastWrite {
-		s.Fail("commit-before-done", "store-not-committed", "obj%d: BatchWriteDone called but store holds %v (err %v), last BatchWrite wrote v%d", o.id, v, err, o.lastWrite)
+	if !o.w.storeMatches(o) {
+		v, err := o.w.store.Get(key(o.id))
+		s.Fail("commit-before-done", "store-not-committed", "obj%d: BatchWriteDone called but store holds %v (err %v), last BatchWrite wrote v%d (deleted=%v)", o.id, v, err, o.lastWrite, o.lastWriteDeleted)
 	}
+	o.committed = o.lastWrite
 }
 
 func (o *obj) BatchWriteScheduled() bool {
 	if o.scheduled {
+		o.w.s.Probe("enqueue-piggybacked-on-scheduled-object")
 		return true
 	}
 	o.scheduled = true
@@ -83,6 +96,15 @@ func (w *world) stored(id int) (uint64, bool) {
 		return 0, false
 	}
 	return binary.LittleEndian.Uint64(v), true
+}
+
+// storeMatches: the store holds exactly what the last BatchWrite of the object did.
+func (w *world) storeMatches(o *obj) bool {
+	got, ok := w.stored(o.id)
+	if o.lastWriteDeleted {
+		return !ok
+	}
+	return ok && got == o.lastWrite
 }
 
 func writer(s *simrt.Sim) {
@@ -105,11 +127,13 @@ func writer(s *simrt.Sim) {
 		n := 1 + s.Choose(simrt.Bound(4, 7))
 		type step struct {
 			obj   int
+			del   bool
 			sleep time.Duration
 		}
 		steps := make([]step, n)
 		for i := range steps {
 			steps[i].obj = s.Choose(nobj)
+			steps[i].del = s.Choose(4) == 3
 			if s.Choose(4) == 3 {
 				steps[i].sleep = simrt.Knob(s, to/4, to, 3*to)
 			}
@@ -131,6 +155,10 @@ func writer(s *simrt.Sim) {
 				o := w.objs[st.obj]
 				nextVersion++
 				o.version = nextVersion
+				o.deleted = st.del
+				if st.del {
+					s.Probe("enqueue-of-deleted-object")
+				}
 				e := &enq{version: o.version, inv: s.Tick()}
 				if firstEnqInv == 0 {
 					firstEnqInv = e.inv
@@ -138,6 +166,12 @@ func writer(s *simrt.Sim) {
 				s.Logf("Enqueue obj%d v%d", o.id, e.version)
 				bw.Enqueue(o)
 				e.ret = s.Tick()
+				switch {
+				case firstStopInv != 0 && e.inv > firstStopInv:
+					s.Probe("enqueue-invoked-after-stop")
+				case firstStopInv != 0 && e.ret > firstStopInv:
+					s.Probe("enqueue-overlaps-stop")
+				}
 				o.enq = append(o.enq, e)
 				s.Logf("Enqueue obj%d v%d returned", o.id, e.version)
 			}
@@ -150,6 +184,7 @@ func writer(s *simrt.Sim) {
 			for i := 0; i < d; i++ {
 				simrt.Yield()
 			}
+			s.Probe("flush")
 			s.Logf("Flush")
 			bw.Flush()
 		})
@@ -180,9 +215,9 @@ func writer(s *simrt.Sim) {
 			if need == 0 {
 				continue
 			}
-			got, ok := w.stored(o.id)
-			if !ok || got < need {
-				s.Fail("stop-waits", "enqueued-before-stop-not-written", "StopBatchWriter returned but obj%d v%d (Enqueue returned before Stop was invoked) is not committed: store has v%d (present=%v)", o.id, need, got, ok)
+			if o.committed < need {
+				got, ok := w.stored(o.id)
+				s.Fail("stop-waits", "enqueued-before-stop-not-written", "StopBatchWriter returned but obj%d v%d (Enqueue returned before Stop was invoked) is not committed: last commit seen v%d, store has v%d (present=%v)", o.id, need, o.committed, got, ok)
 			}
 			if o.dones != o.writes {
 				s.Fail("stop-waits", "done-pending-at-stop-return", "StopBatchWriter returned with %d BatchWrite but %d BatchWriteDone calls for obj%d", o.writes, o.dones, o.id)
@@ -258,8 +293,8 @@ func writer(s *simrt.Sim) {
 			}
 			continue
 		}
-		if !ok || got != o.lastWrite {
-			s.Fail("final-contents", "not-last-write", "obj%d: store holds v%d (present=%v) but the last BatchWrite wrote v%d", o.id, got, ok, o.lastWrite)
+		if !w.storeMatches(o) {
+			s.Fail("final-contents", "not-last-write", "obj%d: store holds v%d (present=%v) but the last BatchWrite wrote v%d (deleted=%v)", o.id, got, ok, o.lastWrite, o.lastWriteDeleted)
 		}
 	}
 }
